@@ -1,7 +1,7 @@
 ----------------------------- MODULE AddrBook_Gen -----------------------------
 (* Statement sequences for replay into the real assembler; every step records what the specification   *)
 (* predicts (active segment, load and execution address before the statement, values of labels, field   *)
-(* offsets and structure lengths).  Structures are one level deep.  ORG while a PHASE offset is in     *)
+(* offsets and structure lengths).  Structures nest two levels deep.  ORG while a PHASE offset is in     *)
 (* force follows the implemented reading (argument = execution address, see AddrBook.Org).             *)
 EXTENDS AddrBook, TLC, Json
 CONSTANTS MaxLen, Lim,     \* Lim: exclusive upper bound of addresses used
@@ -29,7 +29,7 @@ Next ==
   /\ Len(hist) < MaxLen
   /\ \/ \E c \in (IF Small THEN {1, 2} ELSE {1, 2, 3, 5}) : Ordinary /\ Do("EMIT", [n |-> c], MarkUsed(Advance(b, c)))
      \/ ~Small /\ Ordinary /\ Do("READPC", [n |-> 1, val |-> Exec(b)], MarkUsed(Advance(b, 1)))
-     \/ \E c \in (IF Small THEN {0, 3} ELSE {0, 1, 2, 7}) : Do(IF Ordinary THEN "RESERVE" ELSE "FIELD", [n |-> c, val |-> Load(b)], MarkUsed(Advance(b, c)))
+     \/ \E c \in (IF Small THEN {0, 3} ELSE {0, 1, 2, 7}) : Do(IF Ordinary THEN "RESERVE" ELSE "FIELD", [n |-> c, val |-> FieldValue(b)], MarkUsed(Advance(b, c)))
      \/ \E a \in (IF Small THEN {16, Load(b) + 3} ELSE {0, 16, 100, 1000, Load(b) + 3, Load(b)}) :
            Ordinary /\ Do("ORG", [a |-> a], MarkUsed(Org(b, a)))
      \/ \E d \in (IF Small THEN {4} ELSE {1, 4, 32}) : Ordinary /\ Do("RORG", [d |-> d], MarkUsed(Rorg(b, d)))
@@ -40,7 +40,7 @@ Next ==
      \/ \E c \in {0, 1} : Ordinary /\ c # b.cpu /\ Do("CPU", [c |-> c], MarkUsed(Cpu(b, c, "code", 0)))
      \/ Ordinary /\ Len(b.saveStk) < 3 /\ Do("SAVE", <<>>, MarkUsed(Save(b)))
      \/ Ordinary /\ CanRestore(b) /\ Do("RESTORE", <<>>, MarkUsed(Restore(b)))
-     \/ \E u \in BOOLEAN : Ordinary /\ Do("STRUCT", [u |-> u], BeginStruct(b, u))
+     \/ \E u \in BOOLEAN : (Ordinary \/ Len(b.stStk) < 2) /\ Do("STRUCT", [u |-> u, nested |-> ~Ordinary, val |-> FieldValue(b)], BeginStruct(b, u))
      \/ ~Ordinary /\ Do("ENDSTRUCT", [len |-> StructLen(b)], MarkUsed(EndStruct(b)))
      \/ ~Small /\ Ordinary /\ Do("LABEL", [val |-> Exec(b)], MarkUsed(b))
 
